@@ -592,6 +592,29 @@ def _epsilon(ex, args, n):
     return z3.RealVal(1) / z3.RealVal(2 ** 52)
 
 
+INFTY = z3.Real('+inf')          # stands for +infinity where only the direction matters (nextafter)
+NEXTUP = uf('nextup', R, R)      # the next representable double above x
+
+
+@free('infinity')
+def _infinity(ex, args, n):
+    """std::numeric_limits<T>::infinity(): a symbol above every value the model talks about (only used as a direction)"""
+    return INFTY
+
+
+@free('nextafter')
+def _nextafter(ex, args, n):
+    """std::nextafter(x, +infinity): the next representable value above x -- strictly greater (A2: floating-point spacing is
+    positive; nothing else is assumed about it)"""
+    x, to = real(ex.ev(args[0])), ex.ev(args[1])
+    if to is not INFTY:
+        raise Unsupported('nextafter towards something other than +infinity')
+    r = NEXTUP(x)
+    ex.assume(r > x)
+    ex.assumed.add('libm: nextafter(x, +inf) > x')
+    return r
+
+
 @free('gcd')
 def _gcd(ex, args, n):
     a, b = ex.ev(args[0]), ex.ev(args[1])
